@@ -227,13 +227,17 @@ def plan(prop, tier, seed, budget):
             builds=[('heap', 'asan')] + ([] if q else [('heap', 'rel'), ('heap', 'fuzz')]),
             jobs=[g1_jobs('heap', ['2:0:4', '2:1:4', '2:2:3', '1:0:5', '2:0:0:seq6'] if q else
                           ['2:0:6', '2:1:6', '3:0:5', '1:0:6', '2:0:0:seq9', '3:2:0:seq7'], 200000 if q else 3000000),
-                  g2_jobs('heap', 180000 if q else 1200000)] +
-                 ([] if q else [g2_jobs('heap', 60000, variant='rel'), g3_jobs('heap', 400000)]),
+                  g2_jobs('heap', 180000 if q else 1200000),
+                  custom_jobs('heap', 'scale', ['scale', '22' if q else '25', '{out}'])] +
+                 ([] if q else [g2_jobs('heap', 60000, variant='rel'), g3_jobs('heap', 400000),
+                                custom_jobs('heap', 'scale-rel', ['scale', '24', '{out}'], variant='rel')]),
             py=[] if q else [g3_stats('heap')],
             rule='case = byte-coded push/pop/get/clear history with priorities from 1..1000 values (ties by design) and three '
                  'comparison functions; oracle = reference multiset with pointer identity: get/pop return a held element '
                  'comparing >= every held element, pop removes exactly it, NULL iff empty, size; plus a walk over the public '
                  'links: occupied positions are exactly 1..n (complete, left-filled), parent >= child, back links. '
+                 'Scale run: one heap grown through every size up to 2^22+1 (thorough 2^25+1) with a dip of three pops at every '
+                 'power of two, then drained, so push and pop happen at every size (counting oracle, shape walk at the top). '
                  'Non-trivial: >= 1 push after a pop and >= 1 pop from a heap of >= 4 elements with a tie at the top. '
                  'Distinct = distinct case bytes.',
             assumptions=COMMON_ASSUME,
@@ -602,7 +606,7 @@ def plan(prop, tier, seed, budget):
 FAULT_HARNESS = {'C03': 'hash', 'C04': 'hash', 'C19': 'hash', 'C05': 'mem', 'C08': 'map', 'C09': 'vector', 'C10': 'string', 'C14': 'array',
                  # containers that never allocate on the pinned tree: the scripts run once each (there is no request to refuse) until
                  # a change makes one of their operations allocate -- then every such request is refused in turn
-                 'C01': 'tree', 'C02': 'tree', 'C07': 'heap', 'C12': 'dlist', 'C13': 'slist', 'C11': 'sort',
+                 'C01': 'tree', 'C02': 'tree', 'C07': 'heap', 'C17': 'hash', 'C12': 'dlist', 'C13': 'slist', 'C11': 'sort',
                  'C15': ['tree', 'heap', 'dlist', 'slist']}      # (the map's C15 script compares with a twin: not fault-aware)
 
 # ---------------------------------------------------------------- manifest data
